@@ -154,6 +154,13 @@ def ref_graph(summ, y):
 def carry_obligations(H, summ, y):
     """(source node(s), destination node, sentence) from the templates' 'enter here and on Form ..., line N' sentences"""
     out = []
+    ov_path = os.path.join(common.ROOT, 'oracles', 'instr_overrides.json')
+    extra = json.load(open(ov_path)).get('carries', {}) if os.path.exists(ov_path) else {}
+    for o in extra.get('*', []) + extra.get(str(y), []):
+        sf_, sl_ = o['src'].rsplit('.', 1)
+        df_, dl_ = o['dst'].rsplit('.', 1)
+        if sf_ in summ[y]['forms'] and df_ in summ[y]['forms'] and sl_ in summ[y]['forms'][sf_]['lines'] and dl_ in summ[y]['forms'][df_]['lines']:
+            out.append({'src': o['src'], 'dst': o['dst'], 'text': o['text'][:200], 'equal': bool(o.get('equal'))})
     for cls in H['forms'].available_forms[y]:
         obj = cls(instance=gen_forms.instances_of(cls)[0])
         if not obj.pdf_file() or cls.form_name not in summ[y]['forms']:
